@@ -307,7 +307,10 @@ func runC07(c *eng.Ctx) {
 		// CommitSequence in the deferred closure, with the same sequence; the defer is installed after the validation
 		var cm eng.Site
 		var cmFn *ssa.Function
-		for _, cl := range f.AnonFuncs {
+		for _, cl := range closuresT(f) {
+			if cl == f {
+				continue
+			}
 			for _, s := range p.Sites(cl, invokeOn(".family", "CommitSequence")) {
 				cm, cmFn = s, cl
 			}
@@ -589,6 +592,8 @@ func sequenceInsideWriteBracket(c *eng.Ctx) {
 				c.Check(true, "commit-in-bracket:"+p.FuncKey(top), s.Instr, s.Fn, "the sequence is committed while the entry's write claim is still held", "")
 				continue
 			}
+			// a function that was split keeps its name: the unexported tail with one transparent caller stands for that caller
+			top = liftTransparent(p, top)
 			key := c.Prop + "/ORDER-bracket/" + p.FuncKey(top) + "->" + dfT + ".CommitSequence"
 			c.Obls = append(c.Obls, eng.Obligation{Key: key, Rule: "ORDER-bracket", Site: p.InstrPos(s.Instr), Func: p.FuncKey(s.Fn),
 				Want:   "an entry's sequence is committed inside the AcquireWrite..CompleteWrite bracket of its rows (the flush waits for open brackets and captures the sequences at the freeze)",
